@@ -80,14 +80,18 @@ def default_cwd():
     return d
 
 
+try:
+    import ctypes
+    _LIBC = ctypes.CDLL("libc.so.6")
+except Exception:       # pragma: no cover
+    _LIBC = None
+
+
 def _die_with_parent():
-    # the engine must not outlive the driver (a killed check would otherwise leave spinning engines behind)
-    try:
-        import ctypes
-        import signal
-        ctypes.CDLL("libc.so.6").prctl(1, signal.SIGKILL)
-    except Exception:
-        pass
+    # runs in the forked child just before exec: the engine must not outlive the driver (a killed check would otherwise
+    # leave spinning engines behind).  Only an already loaded C function is called here (no imports after fork).
+    if _LIBC is not None:
+        _LIBC.prctl(1, 9)       # PR_SET_PDEATHSIG, SIGKILL
 
 
 class Session:
